@@ -369,6 +369,17 @@ func vfC06Scenarios(thorough bool) []*vfGWScenario {
 	rpeers := []vfPeerCfg{{Name: "a", Proto: "rs", IP: "10.0.0.1"}, {Name: "b", Proto: "rs", IP: "10.0.0.2"}, {Name: "c", Proto: "fs", IP: "10.0.0.3"}}
 	mk("random", "random", rpeers, false, connSub(rpeers, "ab"),
 		[]string{"join:t", "leave:t", "relay:t", "sub:c:t", "unsub:a:t", "sub:a:t", "disc:b", "pub:a:m1", "pub:b:m2", "pub:c:m3", "pub:a:m3", "lpub:t:p1", "lpub:t:p2:local"})
+	// signed traffic (the default policy): what is forwarded is byte for byte what was accepted, key field included --
+	// author x has an RSA identity, whose messages carry the public key
+	for _, router := range []string{"gossip", "flood"} {
+		ps, pre := peers, append(connSub(peers, "abcde"), "join:t")
+		if router == "flood" {
+			ps, pre = fpeers, append(connSub(fpeers, "abc"), "join:t")
+		}
+		mk(router+"-signed", router, ps, false, pre, []string{"pub:a:m1", "pub:b:m2", "pub:c:m3", "pub:b:m1", "lpub:t:p1", "hb", "graft:a:t", "leave:t", "join:t"})
+		out[len(out)-1].Cfg.Extra = map[string]string{"sign": "rsa"}
+		out[len(out)-1].Depth = d - 1
+	}
 	// one recipient has stopped reading and its queue (of one) is full: the copy for it is dropped, everybody else
 	// still gets theirs -- whichever of them the router happens to serve first
 	mk("flood-congested", "flood", fpeers, false, append(connSub(fpeers, "abc"), "join:t", "gate:a"),
